@@ -104,6 +104,14 @@ func (r *InboundRequestSingleFlight) GetOrCreate(ctx *Context, response *GraphQL
 			if request.Err != nil {
 				return nil, request.Err
 			}
+			if request.Data == nil {
+				// The leader finished before it could see this follower (it registered between the
+				// leader's HasFollowers check and the close of Done), so nothing was copied for it.
+				// There is no result to share and the request is no longer inflight: resolve alone.
+				// Returning the request here would make the caller mistake itself for its leader
+				// and close Done a second time.
+				return nil, nil
+			}
 			return request, nil
 		case <-ctx.ctx.Done():
 			return nil, ctx.ctx.Err()
